@@ -437,6 +437,7 @@ func runC18(c *Ctx) {
 	c18SameParser(c, cfgPkg)
 	c18NoEarlySuccess(c)
 	c18PositiveLimits(c)
+	c18Round5(c)
 	c18MustNonNil(c)
 	c18CacheAfterCheck(c)
 	// validated pattern fields are not extended with unvalidated text afterwards:
@@ -1615,5 +1616,131 @@ func c18PositiveLimits(c *Ctx) {
 		}
 		c.Check(covered != "", R, "PrometheusConfig."+field+" is positive after loading", ad.Decl.Pos(), covered,
 			"nothing replaces or rejects a "+field+" that is zero or negative (only the zero value, or nothing, is handled): prometheus { "+strings.ToLower(field[:1])+field[1:]+" = -1 } is accepted by Load(), and starting the workers later panics (channel of negative size / rate limiter dividing by zero)")
+	}
+}
+
+// c18Round5: three more crash-path clauses. (a) An element of a map VALUE is
+// never indexed directly (`m[k][i]`): a key that is not in the table gives a
+// nil slice and the index panics — the shape a switch turns into when it is
+// replaced by a table of rows. (b) config.parseDuration hands back only what
+// model.ParseDuration produced (never negative; the checks rely on that), not
+// the result of another parser. (c) The server definition that
+// PrometheusTemplate.Render hands to newFailoverGroup was validated as a whole:
+// `<it>.validate()` is called on that very value after its literal is complete,
+// and its error returned.
+func c18Round5(c *Ctx) {
+	R := "C18-R3"
+	p := c.P
+	// (a)
+	n := 0
+	for _, rel := range []string{"internal/config", "internal/checks"} {
+		pkg := p.Pkg(rel)
+		if pkg == nil {
+			continue
+		}
+		info := pkg.TypesInfo
+		for _, fi := range p.AllFuncs() {
+			if fi.Pkg != pkg || fi.Decl.Body == nil || p.IsTestFile(fi.Decl.Pos()) {
+				continue
+			}
+			seq := 0
+			ast.Inspect(fi.Decl.Body, func(nd ast.Node) bool {
+				outer, ok := nd.(*ast.IndexExpr)
+				if !ok {
+					return true
+				}
+				inner, ok := ast.Unparen(outer.X).(*ast.IndexExpr)
+				if !ok {
+					return true
+				}
+				t := info.TypeOf(inner.X)
+				if t == nil {
+					return true
+				}
+				if _, isMap := t.Underlying().(*types.Map); !isMap {
+					return true
+				}
+				if vt := info.TypeOf(inner); vt != nil {
+					if _, isSlice := vt.Underlying().(*types.Slice); !isSlice {
+						return true // arrays and maps are safe to index / look up when the key is missing? arrays are: zero value
+					}
+				}
+				n++
+				seq++
+				c.Bad(R, shortFuncName(fi.Name)+":row of a table indexed without a presence test#"+itoa(seq), outer.Pos(),
+					"`"+exprStr(outer)+"` indexes the slice found under a map key without testing that the key is there: for a key outside the table the row is nil and the index panics (an operator or option that validation let through with its error dropped)")
+				return true
+			})
+		}
+	}
+	c.Ok(R, "rows of map tables indexed directly enumerated", token.NoPos, itoa(n)+" (expected none)")
+	// (b)
+	if pd := c.MustFunc(R, "internal/config.parseDuration"); pd != nil {
+		info := pd.Pkg.TypesInfo
+		other := ""
+		ast.Inspect(pd.Decl.Body, func(nd ast.Node) bool {
+			if call, ok := nd.(*ast.CallExpr); ok {
+				if fn := Callee(info, call); fn != nil && fn.Pkg() != nil && strings.HasPrefix(fn.Name(), "Parse") && !(fn.Pkg().Path() == "github.com/prometheus/common/model" && fn.Name() == "ParseDuration") {
+					other = fn.Pkg().Path() + "." + fn.Name()
+				}
+			}
+			return true
+		})
+		c.Check(other == "", R, "parseDuration:only Prometheus durations", pd.Decl.Pos(), "model.ParseDuration only",
+			"config.parseDuration also accepts what "+other+" parses: negative durations and other forms Prometheus' parser rejects pass validation (only zero is refused), and the check built from them later runs with a limit it was never meant to see")
+	}
+	// (c)
+	if rd := c.MustFunc(R, "internal/config.PrometheusTemplate.Render"); rd != nil {
+		info := rd.Pkg.TypesInfo
+		var arg *ast.Ident
+		var callPos token.Pos
+		ast.Inspect(rd.Decl.Body, func(nd ast.Node) bool {
+			if call, ok := nd.(*ast.CallExpr); ok && isCallTo(info, call, "internal/config.newFailoverGroup") && len(call.Args) == 1 {
+				arg, _ = ast.Unparen(call.Args[0]).(*ast.Ident)
+				callPos = call.Pos()
+			}
+			return true
+		})
+		okV := false
+		if arg != nil {
+			o := info.Uses[arg]
+			var defEnd token.Pos
+			ast.Inspect(rd.Decl.Body, func(nd ast.Node) bool {
+				if as, ok := nd.(*ast.AssignStmt); ok {
+					for _, l := range as.Lhs {
+						if objOf(info, l) == o && defEnd == token.NoPos {
+							defEnd = as.End()
+						}
+					}
+				}
+				return true
+			})
+			pm := parentMap(rd.Decl.Body)
+			ast.Inspect(rd.Decl.Body, func(nd ast.Node) bool {
+				call, ok := nd.(*ast.CallExpr)
+				if !ok || !isCallTo(info, call, "internal/config.PrometheusConfig.validate") {
+					return true
+				}
+				sel, _ := call.Fun.(*ast.SelectorExpr)
+				if sel == nil || objOf(info, sel.X) != o || call.Pos() < defEnd || call.Pos() > callPos {
+					return true
+				}
+				// its error is returned: the enclosing if (init or preceding assignment) has a return in its body
+				for cur := pm[ast.Node(call)]; cur != nil; cur = pm[cur] {
+					if ifs, isIf := cur.(*ast.IfStmt); isIf {
+						if len(returnsIn(ifs.Body.List)) > 0 {
+							okV = true
+						}
+						break
+					}
+					if _, isBlk := cur.(*ast.BlockStmt); isBlk {
+						break
+					}
+				}
+				return true
+			})
+		}
+		c.Check(okV, R, "Render:the rendered server definition is validated as a whole", rd.Decl.Pos(), "validate() on the value handed to newFailoverGroup",
+			"the PrometheusConfig that PrometheusTemplate.Render turns into a failover group is not validated after it was filled (include/exclude/tags rendered from discovered data): a pattern that is not a regexp reaches regexp.MustCompile in newFailoverGroup and panics")
 	}
 }
